@@ -14,8 +14,10 @@
    D61 (template flag Closed_T: the parser's calls return 0 when the closing quote is
    missing), and D92 (a high surrogate is joined with the next escape only if the
    next two units are a backslash and u / U; otherwise UnEscape returns 0 -- before,
-   the two units were skipped unread).  None of these failure branches is reachable
-   from the texts the theorems speak about.
+   the two units were skipped unread) and D93 (each \uXXXX group has to be four
+   hexadecimal digits, else UnEscape returns 0 -- before, the scan stopped at the first
+   non-digit but four units were consumed anyway).  None of these failure branches is
+   reachable from the texts the theorems speak about.
 
    Conventions: code units and machine integers are N; SizeT32 arithmetic that can
    wrap is written [u32]; Char_T(x) is [cast w x] with w = sizeof(Char_T) in {1,2,4};
@@ -93,6 +95,24 @@ Fixpoint hex_loop (ds : list N) (number : N) : N :=
 Definition hex_string_to_number (value : list N) (len : nat) : N :=
   hex_loop (firstn len value) 0.
 
+(* HexStringToNumber<SizeT32>(value, offset, end_offset): the overload that advances the
+   caller's offset; the result is the number and how many units were consumed (the loop
+   stops at the first unit that is not a hexadecimal digit, or at end_offset) *)
+Fixpoint hex_scan (ds : list N) (number : N) : N * nat :=
+  match ds with
+  | [] => (number, O)
+  | d :: r => match hex_step number d with
+              | Some n' => let '(n, c) := hex_scan r n' in (n, S c)
+              | None => (number, O)
+              end
+  end.
+
+(* digits_end = offset + 4; code = HexStringToNumber(content, offset, digits_end);
+   if (offset != digits_end) return 0;      (D93: \u needs four hexadecimal digits) *)
+Definition hex_group4 (value : list N) : option N :=
+  let '(n, c) := hex_scan (firstn 4 value) 0 in
+  if Nat.eqb c 4 then Some n else None.
+
 (* ------------------------------------------------------------------ *)
 (* JSONUtils.hpp: JSONotation_T<Char_T> (values from the generated table) *)
 
@@ -143,14 +163,21 @@ Definition low_escape_follows (J : jnot) (r3 : list N) : bool :=
 Definition u_branch (w : N) (r2 : list N) : ubr :=
   let J := jnot_of w in
   if Nat.ltb 3 (length r2) then                         (* (length - offset) > 3 *)
-    let code := hex_string_to_number r2 4 in
-    let r3 := skipn 4 r2 in
-    if negb (is_high_surrogate code) then UBOk (to_utf w code) r3 4
-    else if Nat.ltb 5 (length r3) && low_escape_follows J r3 then   (* (length - offset) > 5 && \u follows *)
-      let r4 := skipn 2 r3 in                          (* offset += 2: the backslash and the u *)
-      (* the VALUE of the low half is not checked: low & 0x3FF (pinned by the repository's tests) *)
-      UBOk (to_utf w (recombine code (hex_string_to_number r4 4))) (skipn 4 r4) 10
-    else UBFail                                        (* lone high surrogate: return 0 *)
+    match hex_group4 r2 with
+    | None => UBFail                                   (* fewer than four hexadecimal digits: return 0 *)
+    | Some code =>
+      let r3 := skipn 4 r2 in
+      if negb (is_high_surrogate code) then UBOk (to_utf w code) r3 4
+      else if Nat.ltb 5 (length r3) && low_escape_follows J r3 then   (* (length - offset) > 5 && \u follows *)
+        let r4 := skipn 2 r3 in                        (* offset += 2: the backslash and the u *)
+        (* the VALUE of the low half is not checked: low & 0x3FF (pinned by the repository's tests),
+           but it has to be four hexadecimal digits as well *)
+        match hex_group4 r4 with
+        | None => UBFail
+        | Some low => UBOk (to_utf w (recombine code low)) (skipn 4 r4) 10
+        end
+      else UBFail                                      (* lone high surrogate: return 0 *)
+    end
   else UBFail.
 
 (* outcome of UnEscape: return value (0 = failure) and the stream's content;
@@ -322,6 +349,11 @@ Definition c20_oracle_encode (w cp : N) (impl : list N) : bool :=
 (* JSON text  pre \uXXXX[\uXXXX] post : the string value is pre, the standard encoding, post *)
 Definition c20_oracle_json (w cp : N) (pre post impl : list N) : bool :=
   eqb_list impl (pre ++ std_utf w cp ++ post).
+
+(* character kinds of the correspondence run: 1, 2, 4 = char, char16_t, char32_t (the kind is
+   sizeof(Char_T)); 5 = wchar_t, whose code path is chosen by sizeof(wchar_t) of the platform
+   (generated table) *)
+Definition c20_width (kind : N) : N := if kind =? 5 then uni_sizeof_wc else kind.
 
 (* the model's answer for the same observations *)
 Definition c20_model_encode (w cp : N) : list N := to_utf w cp.
